@@ -55,7 +55,8 @@ let astdiff_case (fs : t list) : t =
       | None -> L [A "report"; A "none"]
       | Some (ok, ds) ->
         L [A "report"; sx_bool ok;
-           L (List.map (fun ((j, att), clr) -> L [sx_int (int_of_nat j); sx_bool att; sx_bool clr]) ds)] in
+           L (List.map (fun ((j, att), unclear) -> L [sx_int (int_of_nat j); sx_bool att; sx_bool (unclear = []);
+                                                       L (List.map (fun (a, b) -> L [sz a; sz b]) unclear)]) ds)] in
     L [A "result";
        L (A "calls" :: List.map (fun (p, e) -> L [sz p; sz e]) w.w_log);
        L [A "to"; sx_value w.w_to];
